@@ -173,6 +173,13 @@ def handle (op : String) (j : Json) : Except String Json := do
     -- [int(s) for s in parts]: the first failure aborts
     pure (excJ4 intsToJson (mapE intOfStr (← listOfJson strOf (← field j "parts"))))
   -- --- end T4
+  -- --- T14: list item assignment / remove, abs
+  | "t14_list" =>
+    let xs ← listOfJson intOfJson (← field j "xs"); let i ← intOfJson (← field j "i"); let v ← intOfJson (← field j "v")
+    pure (Json.mkObj [("set", excJ4 intsToJson ((indexE xs i).bind (fun _ => .ok (listSet xs i v)))),
+                      ("remove", excJ4 intsToJson (listRemoveE xs v)), ("abs", intJ (absInt i))])
+  | "t14_abs" => pure (ratToJson (absNum (← ratOfJson (← field j "a"))))
+  -- --- end T14
   | _ => throw s!"unknown prelude op {op}"
 
 end OQ.PY.Driver
